@@ -262,13 +262,8 @@ func guardAtoms(c *Ctx, fn *FuncRef, target ast.Node) []string {
 	pm := parentMap(fn.Decl.Body)
 	var out []string
 	addCond := func(e ast.Expr, negate bool) {
-		if negate {
-			out = append(out, positiveForm("!("+pc.path(e)+")"))
-			return
-		}
-		for _, x := range flattenAnd(e) {
-			out = append(out, positiveForm(pc.path(x)))
-		}
+		// conjuncts with negation pushed inward: `!(a || b)` guards like `!a && !b`
+		out = append(out, nnfAtoms(pc, e, negate)...)
 	}
 	var cur ast.Node = target
 	for cur != nil {
